@@ -25,3 +25,11 @@ job('qsbr.c08.ctor', ['C08'], 'u_qsbr_api', 'proofs/qsbr/perthread.c', defines=[
 job('qsbr.c08.resume', ['C08'], 'u_qsbr_api', 'proofs/qsbr/perthread.c', defines=['H_RESUME'], roots={'PT_RESUME': PT + r'qsbr_resume\(\)'}, stubs=PTSTUBS, cfgs=(BASE, DEBUG),
     unwind=10, floor=5, timeout=300, under_contract=['qsbr_per_thread::qsbr_resume'],
     trusted=['qsbr::register_thread replaced by a recording contract (does not throw)', 'operator new / delete model (fresh object or bad_alloc)'])
+NDCFG = [c for c in ALL_CFGS if c.startswith('avx2') and '-ndebug-' in c]
+job('qsbr.c08.defer', ['C08'], 'u_qsbr_api', 'proofs/qsbr/perthread.c', defines=['H_DEFER'], roots={'PT_DEFER': PT + r'on_next_epoch_deallocate\('},
+    stubs=dict(PTSTUBS, ADVANCE=PT + r'advance_last_seen_epoch\(', EMPLACE=r'^unodb::detail::deallocation_request& std::vector<unodb::detail::deallocation_request, .*>::emplace_back<void\*&>'),
+    cfgs=(BASE, 'avx2-nostats-ndebug-pause'), thorough_cfgs=NDCFG, unwind=130, floor=5, timeout=300,
+    under_contract=['qsbr_per_thread::on_next_epoch_deallocate (NDEBUG signature)', 'qsbr::deallocate', 'qsbr::get_state'],
+    trusted=['std::vector<deallocation_request>::emplace_back replaced by an ASSUMED strong-guarantee contract (append exactly one, or throw with the vector unchanged)',
+             'qsbr_per_thread::advance_last_seen_epoch replaced by a recording contract (its list rotation is C05/C06 territory, not decided)',
+             'assertion-enabled signature (std::function debug callback) not covered'])
